@@ -510,7 +510,7 @@ def parse_statement_list(
             variable_definition = parse_variable_definition(obj, context)
             parsed_statements.append(variable_definition)
         else:
-            keys = [key for key in obj.keys() if not key.startswith("_")]
+            keys = [key for key in obj.keys() if not str(key).startswith("_")]
             raise exc.DataGenSyntaxError(
                 f"This statement cannot be parsed: {keys}", **context.line_num(obj)
             )
